@@ -24,7 +24,7 @@ STATUS = {
  "C13": ("table_complete / table_sound / legal_keywords_rawable over tables REGENERATED from the source on every run, emitted_identifier_valid_partial, emit_injective, rename_preserves_binding, self_type_name_unemittable (Props/C13, Sem/Names, Generated/Keywords)", "is_keyword on every entry + near misses; emitTok = spelling of a local and a struct field in the emitted Rust; one compiled program per (binding position, name) over 38 positions (payload variants constructed / matched / bound, keyword arguments of functions and methods, closures with one and two parameters, field chains, consts in consts …) incl. reflection (__fields__, __class_name__, JSON keys); sibling names (k, k_, _k, r_k, K) bound side by side", "renamed program behaves like the plain-named one; sibling bindings keep their own values"),
  "C14": ("resolvers_agree_partial + 3 witnesses, private_rejected, exported_iff, private_decl_rejected, work-list lemmas", "both resolvers on real trees (incl. deep entries, multi-level parents, pairs of imports in one file in both orders), visibility verdicts (plain and `as`-aliased imports: alias fresh, alias = another pub name, alias = a private name; bare use of a declaration that the import does not name), export computation on generated modules imported from the entry directory and from nested packages (pkg.inner, pkg.sub.deep)", "agreement, visibility, missing/cycle"),
  "C15": ("table_pinned over the crate table REGENERATED from add_rust_crate on every run, all_pinned, unknown_refused, deps_exact, names_nodup; json_trigger_found_everywhere / async_trigger_found_everywhere (Tool/Scanners: every walker step is one the scanner follows), json_trigger_was_missed witness", "ProjectGenerator + `incan build` (stub cargo) + trigger positions (json_stringify in 40 statement / expression / owner positions; serde derives in every decorator / list / declaration position); scanner sweep: model scans = real detect_*_usage with a trigger at every expression position of ~200 programs", "exactness, pinning, refs ⊆ declared; every placement of serde / async / web over the entry file and two dependency modules"),
- "C16": ("verdict_truthful, skip_not_run, xfail_inverts, filter_exact, all_selected_reported, exit_iff_failure, counts_match, collect_complete / collect_sound / collect_length (discovery over several files), first_of_name_hides_a_failure witness (Props/C16, Tool/TestRunner)", "real `incan test` on generated files (every executed test through cargo test)", "ground truth of the test bodies (9 ways to fail: assert, assert_eq / ne / true / false, fail, index, division by zero, unwrap of None), -k with and without --slow over matching slow tests, -x, four @skip spellings, the same test name in two files, nested directories and a symlinked directory, test bodies printing lines that look like the harness's own verdicts, runs whose only blemish is an unexpected pass"),
+ "C16": ("verdict_truthful, skip_not_run, xfail_inverts, filter_exact, all_selected_reported, exit_iff_failure, counts_match, collect_complete / collect_sound / collect_length (discovery over several files), every_test_of_every_file_reported, failing_test_in_any_file_fails_run, first_of_name_hides_a_failure witness (Props/C16, Tool/TestRunner)", "real `incan test` on generated files (every executed test through cargo test)", "ground truth of the test bodies (9 ways to fail: assert, assert_eq / ne / true / false, fail, index, division by zero, unwrap of None), -k with and without --slow over matching slow tests, -x, four @skip spellings, the same test name in two files, nested directories and a symlinked directory, test bodies printing lines that look like the harness's own verdicts, runs whose only blemish is an unexpected pass"),
  "C17": ("construction_validated_partial, rejected_argument_stops, own_methods_exempt, other_methods_checked, select_sound / select_from_underlying / select_single, nominal, alias_bypasses witness (Props/C17, Sem/Newtype)", "compiled programs: 11 fixed declaration shapes + generated ones (1-3 methods, hook-shaped or near misses, hook-like and other names) × 23 sites (incl. the payload of another newtype as the argument, list elements, f-strings) × values; 6 underlying types", "hook enforced outside own methods; mixing newtypes rejected at 26 sites (annotations, return, argument, kwarg, default, method argument, field, append / insert / extend / index / dict store, Option / Result / tuple / comprehension / match arm)"),
  "C18": ("converges for all interleavings (ticket protocol); 3 counter-examples for the old protocol; save_with_ticket_loses_newer_version and per_document_tickets_resurrect_old_text witnesses; open_dependency_overrides_disk", "event-log replay (histories with opens, changes, closes and interleaved didSave notifications; texts that parse, fail in the parser or fail in the lexer; per history one serial schedule, schedules starving each of the first three handlers, a burst schedule (first polls in arrival order while the client reads nothing) and seeded schedules); importer diagnostics with a dependency text in the editor vs on disk", "hover = latest after quiescence; dependency scenarios must be sensitive"),
  "C19": ("roundtrip, strict_mono, counting, range_wellformed, terminal_line_agrees, terminal_col_agrees (unconditional since the character-column fix; old_terminal_col_counted_bytes keeps the pre-fix witness)", "5 streams, exhaustive small documents over a, é, €, 😀, LF, CR, TAB; rendered caret line; the whole rendering (caret padding, underline length) for every span, multi-line and past-the-end spans included", "counting in Python"),
